@@ -21,5 +21,68 @@ pub(crate) fn duration_to_instant(duration: Duration) -> Instant {
 /// A helper to get the current time as a `Duration` since the epoch.
 #[inline]
 pub(crate) fn now_duration() -> Duration {
+  #[cfg(excsn_fibre_verif)]
+  if let Some(virtual_now) = verif_clock::override_now() {
+    return virtual_now;
+  }
   instant_to_duration(Instant::now())
+}
+
+/// Virtual clock for verification builds (`--cfg excsn_fibre_verif`): lets a
+/// harness shift or freeze the cache's notion of "now" without sleeping.
+#[cfg(excsn_fibre_verif)]
+pub mod verif_clock {
+  use super::*;
+  use std::sync::atomic::{AtomicU64, AtomicU8, Ordering};
+
+  const MODE_REAL: u8 = 0;
+  const MODE_OFFSET: u8 = 1;
+  const MODE_FROZEN: u8 = 2;
+
+  static MODE: AtomicU8 = AtomicU8::new(MODE_REAL);
+  static OFFSET_NANOS: AtomicU64 = AtomicU64::new(0);
+  static BASE_NANOS: AtomicU64 = AtomicU64::new(0);
+
+  #[inline]
+  pub(crate) fn override_now() -> Option<Duration> {
+    match MODE.load(Ordering::SeqCst) {
+      MODE_REAL => None,
+      MODE_OFFSET => Some(
+        instant_to_duration(Instant::now())
+          + Duration::from_nanos(OFFSET_NANOS.load(Ordering::SeqCst)),
+      ),
+      _ => Some(Duration::from_nanos(
+        BASE_NANOS.load(Ordering::SeqCst) + OFFSET_NANOS.load(Ordering::SeqCst),
+      )),
+    }
+  }
+
+  /// Freezes time at the current (real + offset) instant; only `advance` moves it.
+  pub fn freeze() {
+    let now = super::now_duration().as_nanos() as u64;
+    BASE_NANOS.store(now, Ordering::SeqCst);
+    OFFSET_NANOS.store(0, Ordering::SeqCst);
+    MODE.store(MODE_FROZEN, Ordering::SeqCst);
+  }
+
+  /// Real time keeps flowing, shifted by whatever `advance` has accumulated.
+  pub fn offset_mode() {
+    MODE.store(MODE_OFFSET, Ordering::SeqCst);
+  }
+
+  /// Back to the unmodified real clock.
+  pub fn reset() {
+    MODE.store(MODE_REAL, Ordering::SeqCst);
+    OFFSET_NANOS.store(0, Ordering::SeqCst);
+  }
+
+  /// Moves virtual time forward.
+  pub fn advance(by: Duration) {
+    OFFSET_NANOS.fetch_add(by.as_nanos() as u64, Ordering::SeqCst);
+  }
+
+  /// The cache's current notion of now, in nanoseconds since its epoch.
+  pub fn now_nanos() -> u64 {
+    super::now_duration().as_nanos() as u64
+  }
 }
